@@ -2,42 +2,80 @@
 (* Schedule export for Session.tla (DESIGN.md 2.2 b): one schedule per
    transition of the state graph (hist hidden by the VIEW; the PrintT sits
    inside the action).  The harness forces each schedule on a real
-   session.Session with the gates of Session.client and then lets every
-   goroutine run to completion.
+   session.Session with the gates of Session.client (enter, miss, dialed,
+   locked, inserted), the gate of the closer, a listener that holds back the
+   authentication of a new connection, an authenticator that refuses on
+   demand and server-side streams it can cut - and then lets every goroutine
+   run to completion.
 
    The update loop (Signal / Refresh) is left out: it does not touch the pool.
-   Replayable: the harness parks goroutines only at the gates (before RLock,
-   after RUnlock, after dial, after Lock), so it cannot hold a goroutine
-   *inside* Lock(): schedules are not continued beyond a state in which a
-   writer waits while another writer holds the lock or readers are queued
-   (who goes next is then sync.RWMutex's choice, not the schedule's).       *)
+   Goroutines are interchangeable: only schedules in which they start in the
+   order of GorOrder are exported.
+   Replayable: the harness parks goroutines only at the gates, so it cannot
+   hold a goroutine *inside* Lock(): schedules are not continued beyond a
+   state in which a writer waits while another writer holds the lock or
+   readers are queued (who goes next is then sync.RWMutex's choice, not the
+   schedule's).                                                              *)
 EXTENDS Session, Json, IOUtils
 
-CONSTANT SampleMod   \* 1: every transition; k > 1: the seeded 1/k sample chosen by the environment variable SEL (0..k-1)
+\* environment: MOD = 1: every transition; MOD = k > 1: the seeded 1/k sample chosen by SEL (0..k-1)
+EnvNum(str) == CHOOSE n \in 0..9999 : ToString(n) = str
+SampleMod == EnvNum(IOEnv.MOD)
+SelNum == EnvNum(IOEnv.SEL)
 
 VARIABLE hist
 gvars == <<vars, hist>>
 
-Rec(g, act) == [g |-> g, act |-> act, a |-> tgt'[g], pc |-> pc'[g], ret |-> ret'[g], conn |-> mine'[g],
+GorOrder == <<"g1", "g2", "g3", "g4">>
+Pos(g) == CHOOSE i \in 1..Len(GorOrder) : GorOrder[i] = g
+InOrder(g) == reqs[g] = 0 => \A h \in Gor : Pos(h) < Pos(g) => reqs[h] > 0
+
+\* the world the harness has to build: the address list of every service
+ASSUME PrintT(<<"W", ToJson([adv |-> [s \in Svcs |-> Adv[s]], eps |-> Eps, gor |-> Gor])>>)
+
+StOf(c) == IF c = NULL THEN "" ELSE conns'[c].st
+\* one step of goroutine g
+Rec(g, act) == [g |-> g, act |-> act, svc |-> svc'[g], pc |-> pc'[g], conn |-> mine'[g],
+                a |-> IF mine'[g] = NULL THEN "" ELSE conns'[mine'[g]].ep,          \* address dialed
+                key |-> IF mine'[g] = NULL THEN "" ELSE conns'[mine'[g]].key,       \* pool key used
+                res |-> res'[g], ret |-> ret'[g],
+                st |-> StOf(ret'[g]),                                                \* state of the client returned
+                cp |-> mine'[g] \in cpend',                                           \* closer of the own connection started
                 wfree |-> (writer' = NoG /\ wwait' \subseteq {g})]   \* nobody else holds or wants the write lock
-Selected == SampleMod = 1 \/ TLCGet("generated") % SampleMod = (CHOOSE n \in 0..99 : ToString(n) = IOEnv.SEL)
-Step(g, act) == /\ hist' = Append(hist, Rec(g, act))
-                /\ Selected => PrintT(<<"T", ToJson([steps |-> hist',
-                                         open |-> [a \in Addrs |-> Cardinality({c \in DOMAIN conns' : conns'[c].addr = a /\ conns'[c].open})],
-                                         crashed |-> crashed', leaked |-> leaked'])>>)
+\* a step of the environment / of a closer on connection c
+OwnerPc(c) == IF \E g \in Gor : mine[g] = c /\ pc[g] \notin {"idle", "stuck"}
+                THEN pc[CHOOSE g \in Gor : mine[g] = c /\ pc[g] \notin {"idle", "stuck"}] ELSE ""
+CRec(c, act) == [g |-> "", act |-> act, svc |-> "", pc |-> OwnerPc(c), conn |-> c,    \* pc: where the goroutine that dialed c stands
+                 a |-> conns'[c].ep, key |-> conns'[c].key, res |-> "", ret |-> NULL, st |-> conns'[c].st,
+                 cp |-> c \in cpend', wfree |-> TRUE]
+Selected == SampleMod = 1 \/ TLCGet("generated") % SampleMod = SelNum
+Out(h) == Selected => PrintT(<<"T", ToJson([steps |-> h,
+                                 open |-> [a \in Eps |-> Cardinality({c \in DOMAIN conns' : conns'[c].ep = a /\ conns'[c].st = "open"})],
+                                 conns |-> [c \in DOMAIN conns' |-> conns'[c].st],
+                                 pool |-> [a \in AllAddrs |-> poll'[a]],
+                                 crashed |-> crashed', leaked |-> leaked'])>>)
+Step(g, act) == hist' = Append(hist, Rec(g, act)) /\ Out(hist')
+CStep(c, act) == hist' = Append(hist, CRec(c, act)) /\ Out(hist')
 
 GInit == Init /\ hist = <<>>
-GNext == \E g \in Gor :
-           \/ \E a \in Addrs : Start(g, a) /\ Step(g, "Start")
-           \/ RLockEnter(g) /\ Step(g, "RLockEnter")
-           \/ RLockGranted(g) /\ Step(g, "RLockGranted")
-           \/ LookupHit(g) /\ Step(g, "LookupHit")
-           \/ LookupMiss(g) /\ Step(g, "LookupMiss")
-           \/ Dial(g) /\ Step(g, "Dial")
-           \/ LockWait(g) /\ Step(g, "LockWait")
-           \/ Lock(g) /\ Step(g, "Lock")
-           \/ Insert(g) /\ Step(g, "Insert")
-           \/ Dup(g) /\ Step(g, "Dup")
+GNext == \/ \E g \in Gor :
+              \/ \E s \in Svcs : InOrder(g) /\ Start(g, s) /\ Step(g, "Start")
+              \/ RLockEnter(g) /\ Step(g, "RLockEnter")
+              \/ RLockGranted(g) /\ Step(g, "RLockGranted")
+              \/ LookupHit(g) /\ Step(g, "LookupHit")
+              \/ LookupMiss(g) /\ Step(g, "LookupMiss")
+              \/ SelectDial(g) /\ Step(g, "SelectDial")
+              \/ SelectFail(g) /\ Step(g, "SelectFail")
+              \/ AuthOK(g) /\ Step(g, "AuthOK")
+              \/ AuthRefused(g) /\ Step(g, "AuthRefused")
+              \/ AuthLost(g) /\ Step(g, "AuthLost")
+              \/ LockWait(g) /\ Step(g, "LockWait")
+              \/ Lock(g) /\ Step(g, "Lock")
+              \/ Insert(g) /\ Step(g, "Insert")
+              \/ AddHandler(g) /\ Step(g, "AddHandler")
+              \/ Dup(g) /\ Step(g, "Dup")
+         \/ \E c \in DOMAIN conns : Lose(c) /\ CStep(c, "Lose")
+         \/ \E c \in cpend : wwait = {} /\ Closer(c) /\ CStep(c, "Closer")   \* (a goroutine released into Lock() already owns the real mutex)
 GSpec == GInit /\ [][GNext]_gvars
 View == vars
 Replayable == /\ Cardinality(wwait) <= 1
